@@ -193,8 +193,7 @@ def run(tier):
     t0 = time.time()
     verdict = common.Verdict(PID)
     d = common.builddir('c15', clean=True)
-    for f in ('Tenancy.tla', 'TenancyTrace.tla'):
-        shutil.copy(os.path.join(common.SPEC, 'tenancy', f), d)
+    common.put_spec(d, *[os.path.join('tenancy', f_) for f_ in ('Tenancy.tla', 'TenancyTrace.tla')])
     consts = ('CONSTANTS\n Types = {%s}\n Shareable = {"workflow_definition"}\n Ops = {%s}\n'
               % (', '.join('"%s"' % t for t in TYPES), ', '.join('"%s"' % o for o in OPS)))
     with open(os.path.join(d, 'Tenancy.cfg'), 'w') as fh:
